@@ -3,7 +3,7 @@
    lexicographic tie-breaking, inside_ellipsoid; cover / surface_dist2 = exact specs). *)
 From Coq Require Import Reals QArith Qreals List ZArith Bool Lra Permutation.
 Require Import Cox.Num.Ops Cox.Num.Transfer Cox.Geo.Vec Cox.Model.Mesh Cox.Model.Inside
-  Cox.Thm.InsideThm Cox.Thm.InsideTransfer Cox.Thm.MeshTransfer Cox.Thm.Winding3Thm.
+  Cox.Thm.InsideThm Cox.Thm.InsideTransfer Cox.Thm.MeshTransfer Cox.Thm.Winding3Thm Cox.Thm.WindingThm Cox.Thm.Piercing.
 Import ListNotations.
 
 (* convex: the normalised signed distance the code tests has the sign of the exact side value,
@@ -57,6 +57,19 @@ Proof.
   intros p TT. repeat split; [apply chain_sum_flip | apply chain_sum_rot | apply inside_polyhedron_rot | apply inside_polyhedron_flip].
 Qed.
 Print Assumptions C05_polyhedron_orientation_symmetry_partial.
+
+(* RAY CASTING.  In generic position (the query point shares its x coordinate with no vertex and its xy-projection lies on no
+   projected edge) each triangle contributes sgn(det(a-p,b-p,c-p)) exactly when the line through p parallel to the z axis
+   pierces it (the projection of p strictly inside the projected triangle - the C06 triangle theorem), else 0; so the chain sum
+   of ANY triangle list is the signed number of piercings of the surface by that line (both directions): for a closed
+   outward-oriented surface 2 if p is enclosed, 0 if not - the winding number is chain_sum / 2.  (The lexicographic
+   tie-breaking of the code extends this to points sharing coordinates with vertices; that part, and "piercing parity =
+   enclosed" for arbitrary closed meshes, are decided per point by the exact covering-number oracle.) *)
+Theorem C05_polyhedron_chain_sum_is_piercing_count_partial :
+  forall (p : vec3 R) (TT : list (@tri R)),
+    (forall t, In t TT -> generic_tri3 p t) -> chain_sum Rops p TT = zsum (map (pierce p) TT).
+Proof. exact chain_sum_is_piercing_count. Qed.
+Print Assumptions C05_polyhedron_chain_sum_is_piercing_count_partial.
 
 Theorem C05_polyhedron_transfer :
   forall p TT, inside_polyhedron Qops p TT = inside_polyhedron Rops (Q2R3 p) (map Q2Rt TT).
